@@ -77,7 +77,7 @@ func symOf(v ssa.Value) (string, bool) {
 		case *ssa.FreeVar:
 			return x.Name(), true
 		case *ssa.Phi:
-			if x.Comment != "" {
+			if x.Comment != "" && x.Comment != "||" && x.Comment != "&&" {
 				return x.Comment, true // named local variable merged at a join
 			}
 			return "", false
@@ -351,9 +351,11 @@ func enumeratePaths(start *ssa.BasicBlock, limit int) []predPath {
 							dfs(s, b, ns, blocks, unknown, phis, onPath)
 							continue
 						}
-						a.X = v
-						if inner, ok := v.(*ssa.BinOp); ok {
-							a = condAtom(inner, (a.Op == token.EQL) == isBoolTrue(a.Y))
+						// the merged value itself is the condition on this path (a comparison, a negated call, …)
+						if isBoolTrue(a.Y) && (a.Op == token.EQL || a.Op == token.NEQ) {
+							a = condAtom(v, a.Op == token.EQL)
+						} else {
+							a.X = v
 						}
 					}
 				}
@@ -389,10 +391,16 @@ func boolResultPaths(p predPath) []struct {
 		Ok  bool
 	}
 	v := p.Ret.Results[0]
-	if phi, ok := v.(*ssa.Phi); ok {
-		if pv, ok := p.PhiPred[phi]; ok {
-			v = pv
+	for i := 0; i < 4; i++ {
+		phi, ok := v.(*ssa.Phi)
+		if !ok {
+			break
 		}
+		pv, ok := p.PhiPred[phi]
+		if !ok {
+			break
+		}
+		v = pv
 	}
 	if cst, ok := v.(*ssa.Const); ok && cst.Value != nil {
 		return []r{{p.State, cst.Value.String() == "true", true}}
